@@ -75,13 +75,10 @@ Combine(a, b) == IF "degenerate" \in {a, b} THEN "degenerate"
 (***************************************************************************)
 (* transfer: nine pairing forms                                            *)
 (***************************************************************************)
-Pairing(f) ==
-  LET S  == RegTab[f.sn][f.sr]
-      D  == RegTab[f.dn][f.dr]
-      ns == Len(S.wells)
+\* S, D: denotations [ok, wells, shape] of the source and destination regions; sC, dC: is the side a container?
+PairUp(S, D, sC, dC) ==
+  LET ns == Len(S.wells)
       nd == Len(D.wells)
-      sC == IsC(f.sn)
-      dC == IsC(f.dn)
   IN  IF ~S.ok \/ ~D.ok \/ ns = 0 \/ nd = 0
         THEN [ok |-> FALSE, form |-> "invalid", pairs |-> <<>>]
       ELSE IF sC \/ (ns = 1 /\ S.shape = <<1, 1>>)
@@ -96,8 +93,14 @@ Pairing(f) ==
         THEN [ok |-> TRUE, form |-> "NtoN", pairs |-> [j \in 1..ns |-> <<S.wells[j], D.wells[j]>>]]
       ELSE [ok |-> FALSE, form |-> "mismatch", pairs |-> <<>>]
 
-Overlap(f, P) ==
-  IF f.sn # f.dn THEN "none"
+Pairing(f) == PairUp(RegTab[f.sn][f.sr], RegTab[f.dn][f.dr], IsC(f.sn), IsC(f.dn))
+
+\* an element-wise transfer between list selections that name a well twice
+Duplicated(P) == P.form = "NtoN" /\ \E i, j \in DOMAIN P.pairs : i # j /\ (P.pairs[i][1] = P.pairs[j][1] \/ P.pairs[i][2] = P.pairs[j][2])
+
+Overlap(f, P) ==        \* (f needs only the fields sn, dn)
+  IF Duplicated(P) THEN "duplicate"
+  ELSE IF f.sn # f.dn THEN "none"
   ELSE LET ss == {p[1] : p \in SeqRange(P.pairs)}
            ds == {p[2] : p \in SeqRange(P.pairs)}
        IN  IF IsC(f.sn) THEN "self"
@@ -122,6 +125,11 @@ XferFold(V, f, pairs, q, u, k, cls) ==
                 ELSE LET V1 == [V EXCEPT ![f.sn].w[p[1]] = r.sw]
                          V2 == [V1 EXCEPT ![f.dn].w[p[2]] = r.dw]
                      IN  XferFold(V2, f, Tail(pairs), q, u, k + 1, Combine(cls, r.cls))
+
+TransferOpP(V, f, P, q, u) ==        \* with the pairing given (f needs only the fields sn, dn)
+  IF ~P.ok THEN [ok |-> FALSE, V |-> V, cls |-> "shape_mismatch", at |-> 0]
+  ELSE IF IsNeg(q) THEN [ok |-> FALSE, V |-> V, cls |-> "negative", at |-> 0]
+  ELSE XferFold(V, f, P.pairs, q, u, 1, "interior")
 
 TransferOp(V, f, q, u) ==
   LET P == Pairing(f) IN
